@@ -1,0 +1,167 @@
+//go:build verif
+
+// Contracts for the verification machinery in /verif (comment-only; excluded from normal builds).
+// Property C25. Mode int: Go ints are mathematical integers and every +,-,* carries a no-overflow obligation.
+//
+// Byte streams are ghost state: the transport under a Writer is (out_dat, out_len), the transport under a
+// Reader is (in_dat, in_pos); a bytes.Buffer is the pair (bb_dat[ref], bb_len[ref]) keyed by its reference.
+
+package slip
+
+//@ ghost bb_len (Array Int Int) allocinit 0
+//@ ghost bb_dat (Array Int (Array Int Int))
+//@ ghost out_dat (Array Int Int)
+//@ ghost out_len Int
+//@ ghost in_dat (Array Int Int)
+//@ ghost in_pos Int
+//@ ghost in_fault Bool
+//@ ghost rq_dat (Array Int Int)
+//@ ghost rq_len Int
+//@ ghost rq_off Int
+//@ ghost rq_lead Int
+
+// ---- RFC 1055 byte stuffing as a specification
+// slip_pos(a, o, i): number of stream bytes that encode the first i payload bytes a[o .. o+i).
+// slip_at(d, q, b): the stream d holds the encoding of payload byte b at position q.
+// slip_framed(d, s, a, o, n): d[s ..] is END, the stuffed payload a[o .. o+n), END.
+//@ spec (declare-fun slip_pos ((Array Int Int) Int Int) Int)
+//@ spec slip_w(b int) int := ite(b == END || b == ESC, 2, 1)
+//@ axiom forall a (Array Int Int), o Int {slip_pos(a, o, 0)} :: slip_pos(a, o, 0) == 0
+//@ axiom forall a (Array Int Int), o Int, i Int {slip_pos(a, o, i)} :: i >= 0 ==> slip_pos(a, o, i+1) == slip_pos(a, o, i) + slip_w(a[o+i]) && slip_pos(a, o, i) >= i
+//@ spec slip_at(d (Array Int Int), q int, b int) bool :=
+//@      ite(b == END, d[q] == ESC && d[q+1] == ESC_END, ite(b == ESC, d[q] == ESC && d[q+1] == ESC_ESC, d[q] == b))
+//@ spec slip_framed(d (Array Int Int), s int, a (Array Int Int), o int, n int) bool :=
+//@      d[s] == END &&
+//@      (forall j Int {slip_pos(a, o, j)} :: 0 <= j && j < n ==> slip_at(d, s+1+slip_pos(a, o, j), a[o+j])) &&
+//@      d[s+1+slip_pos(a, o, n)] == END
+
+// ---- assumed: bytes.Buffer as (content, length) keyed by reference
+//@ extern (*bytes.Buffer).WriteByte
+//@   mode int
+//@   ensures result == nil
+//@   sets bb_dat = store(old(bb_dat), b, store(old(bb_dat)[b], old(bb_len)[b], int(c)))
+//@   sets bb_len = store(old(bb_len), b, old(bb_len)[b] + 1)
+//@   trusted
+//@ extern (*bytes.Buffer).Len
+//@   mode int
+//@   ensures result == bb_len[b]
+//@   pure
+//@   trusted
+//@ extern (*bytes.Buffer).Bytes
+//@   mode int
+//@   ensures len(result) == bb_len[b]
+//@   ensures isfresh(result) && off(result) == 0 && arr(result) == bb_dat[b]
+//@   pure
+//@   trusted
+
+// ---- assumed: the transports
+// io.Writer.Write appends p to the output stream. io.Reader.Read into a one-byte buffer either delivers the
+// next stream byte (n == 1, err == nil) or reports a fault (n == 0 or err != nil; in_fault becomes true).
+//@ iface io.Writer.Write
+//@   mode int
+//@   ensures forall k Int :: 0 <= k && k < old(out_len) ==> out_dat[k] == old(out_dat)[k]
+//@   ensures forall k Int {out_dat[k]} :: old(out_len) <= k && k < old(out_len)+len(p) ==> out_dat[k] == arr(p)[off(p)+k-old(out_len)]
+//@   sets out_len = old(out_len) + len(p)
+//@   modifies out_dat
+//@   trusted
+//@ iface io.Reader.Read
+//@   mode int
+//@   requires len(p) == 1
+//@   ensures (n == 1 && err == nil && int(p[0]) == old(in_dat)[old(in_pos)] && in_pos == old(in_pos) + 1 && in_fault == old(in_fault)) || ((n == 0 || err != nil) && in_fault)
+//@   modifies in_pos, in_fault, p[0]
+//@   trusted
+
+//@ func (*Writer).WritePacket
+//@   mode int
+//@   requires s != nil
+//@   loop 0 invariant -1 <= rangeindex && rangeindex < len(p)
+//@   loop 0 invariant bb_len[buf] == 1 + slip_pos(arr(p), off(p), rangeindex+1)
+//@   loop 0 invariant bb_dat[buf][0] == END
+//@   loop 0 invariant forall j Int {slip_pos(arr(p), off(p), j)} :: 0 <= j && j <= rangeindex+1 ==> slip_pos(arr(p), off(p), j) <= slip_pos(arr(p), off(p), rangeindex+1)
+//@   loop 0 invariant forall j Int {slip_pos(arr(p), off(p), j)} :: 0 <= j && j <= rangeindex ==> slip_at(bb_dat[buf], 1+slip_pos(arr(p), off(p), j), int(p[j]))
+//@   loop 0 invariant out_len == old(out_len) && out_dat == old(out_dat)
+//@   ensures[len]    out_len == old(out_len) + 2 + slip_pos(arr(p), off(p), len(p))
+//@   ensures[prefix] forall k Int :: 0 <= k && k < old(out_len) ==> out_dat[k] == old(out_dat)[k]
+//@   ensures[head]   out_dat[old(out_len)] == END
+//@   ensures[body]   forall j Int {slip_pos(arr(p), off(p), j)} :: 0 <= j && j < len(p) ==> slip_at(out_dat, old(out_len)+1+slip_pos(arr(p), off(p), j), int(p[j]))
+//@   ensures[tail]   out_dat[old(out_len)+1+slip_pos(arr(p), off(p), len(p))] == END
+//@   modifies out_dat, out_len, bb_dat, bb_len
+//@   property C25
+
+// The stream ahead of the reader is rq_lead+1 END bytes, the stuffed payload rq_dat[rq_off .. rq_off+rq_len), END.
+// Without a transport fault the reader returns exactly that payload, not marked as a prefix, and leaves
+// the stream just behind the closing END.
+//@ func (*Reader).ReadPacket
+//@   mode int
+//@   requires s != nil && rq_lead >= 0 && rq_len > 0
+//@   requires forall k Int {in_dat[k]} :: in_pos <= k && k < in_pos + rq_lead ==> in_dat[k] == END
+//@   requires in_dat[in_pos + rq_lead] == END
+//@   requires forall j Int {slip_pos(rq_dat, rq_off, j)} :: 0 <= j && j < rq_len ==> slip_at(in_dat, in_pos+rq_lead+1+slip_pos(rq_dat, rq_off, j), rq_dat[rq_off+j])
+//@   requires in_dat[in_pos+rq_lead+1+slip_pos(rq_dat, rq_off, rq_len)] == END
+//@   loop 0 invariant in_fault == old(in_fault)
+//@   loop 0 invariant 0 <= bb_len[buf] && bb_len[buf] <= rq_len && slip_pos(rq_dat, rq_off, 0) == 0
+//@   loop 0 invariant bb_len[buf] == 0 ==> old(in_pos) <= in_pos && in_pos <= old(in_pos) + rq_lead + 1
+//@   loop 0 invariant bb_len[buf] > 0 ==> in_pos == old(in_pos) + rq_lead + 1 + slip_pos(rq_dat, rq_off, bb_len[buf])
+//@   loop 0 invariant forall j Int {bb_dat[buf][j]} :: 0 <= j && j < bb_len[buf] ==> bb_dat[buf][j] == rq_dat[rq_off+j]
+//@   ensures[complete] !in_fault ==> !isPrefix && err == nil
+//@   ensures[length]   !in_fault ==> len(p) == rq_len
+//@   ensures[payload]  !in_fault ==> (forall j Int :: 0 <= j && j < rq_len ==> int(p[j]) == rq_dat[rq_off+j])
+//@   ensures[cursor]   !in_fault ==> in_pos == old(in_pos) + rq_lead + 1 + slip_pos(rq_dat, rq_off, rq_len) + 1
+//@   modifies in_pos, in_fault, bb_dat, bb_len
+//@   property C25
+
+// Round trip, one packet: what a Writer puts on the transport for a non-empty payload is, for a Reader
+// positioned at the start of that output and a fault-free transport, exactly one packet equal to the
+// payload; the Reader ends where the Writer's output ends, so the statement composes over any sequence of
+// packets (the next packet starts at the new in_pos == out_len).
+//@ lemma roundtrip
+//@   mode int
+//@   forall w *Writer, r *Reader, p []byte
+//@   assume w != nil && r != nil && len(p) > 0
+//@   let start := out_len
+//@   let werr := w.WritePacket(p)
+//@   assume in_dat == out_dat && in_pos == start && !in_fault
+//@   assume rq_dat == arr(p) && rq_off == off(p) && rq_len == len(p) && rq_lead == 0
+//@   let q, prefix, rerr := r.ReadPacket()
+//@   assume !in_fault
+//@   assert !prefix && rerr == nil && len(q) == len(p)
+//@   assert forall j int :: 0 <= j && j < len(p) ==> q[j] == p[j]
+//@   assert in_pos == out_len
+//@   property C25
+
+// ---- SLIPMUX frame-type classes (the writer prepends, and the reader strips, the frame byte exactly for
+// the non-IP classes, so both sides must agree on these ranges: RFC draft-bormann-t2trg-slipmux)
+//@ func IsIpv4Frame
+//@   ensures result == (frame >= 0x45 && frame <= 0x4f)
+//@   safe
+//@   property C25
+//@ func IsIpv6Frame
+//@   ensures result == (frame >= 0x60 && frame <= 0x6f)
+//@   safe
+//@   property C25
+//@ func IsIpFrame
+//@   ensures result == ((frame >= 0x45 && frame <= 0x4f) || (frame >= 0x60 && frame <= 0x6f))
+//@   safe
+//@   property C25
+//@ func isInvalidFrame
+//@   ensures result == (frameType == 0xC0 || frameType == 0xDB || frameType == 0)
+//@   safe
+//@   property C25
+
+// ---- PPP FCS-16 (RFC 1662 appendix C): the table is the byte-wise reflected CRC with polynomial 0x8408,
+// and the checksum loop is the table-driven recurrence over the data.
+//@ spec fcs_bit(v uint16) uint16 := ite(v&1 == 1, (v>>1) ^ 0x8408, v>>1)
+//@ spec fcs_byte(v uint16) uint16 := fcs_bit(fcs_bit(fcs_bit(fcs_bit(fcs_bit(fcs_bit(fcs_bit(fcs_bit(v))))))))
+//@ spec fcs_next(v uint16, b byte) uint16 := (v >> 8) ^ fcstab[(v ^ uint16(b)) & 0xff]
+//@ lemma fcstab_is_crc16_table
+//@   foreach k in 0..255
+//@   assert fcstab[k] == fcs_byte(uint16(k))
+//@   property C25
+//@ func CalcFcs16WithInit
+//@   loop 0 unroll 3
+//@   requires len(data) <= 2
+//@   ensures[len0] len(data) == 0 ==> result == initialFcs
+//@   ensures[len1] len(data) == 1 ==> result == fcs_next(initialFcs, data[0])
+//@   ensures[len2] len(data) == 2 ==> result == fcs_next(fcs_next(initialFcs, data[0]), data[1])
+//@   safe
+//@   property C25
